@@ -55,6 +55,14 @@ type Outcome struct {
 	Log       []string `json:"-"`
 	SimNs     int64    `json:"sim_ns"`
 	MapCalls  int      `json:"map_calls"`
+
+	evalReturned bool
+	// GatedOps / GatedChoices: operations released in GateReads mode, and how many
+	// of those releases had more than one candidate.
+	GatedOps     int `json:"gated_ops,omitempty"`
+	GatedChoices int `json:"gated_choices,omitempty"`
+	// GoroutineLeak: evaluation returned, but goroutines it started stay blocked for good.
+	GoroutineLeak bool `json:"goroutine_leak,omitempty"`
 	// LateReleases counts ContainerLogs calls that were still parked when evaluation returned.
 	LateReleases int `json:"late_releases,omitempty"`
 	// RepollRecords counts records produced by Next after it had returned false.
@@ -162,7 +170,12 @@ func Exec(t *testing.T, p *Plan, vi int, opts ExecOpts) *Outcome {
 			if r := recover(); r != nil {
 				msg := fmt.Sprint(r)
 				if strings.Contains(msg, "deadlock") || strings.Contains(msg, "blocked goroutines remain") {
-					out.Hang = true
+					if out.evalReturned {
+						// evaluation came back; what stays blocked is a leaked goroutine
+						out.GoroutineLeak = true
+					} else {
+						out.Hang = true
+					}
 					return
 				}
 				panic(r)
@@ -218,6 +231,11 @@ func bubble(p *Plan, world *World, v *Variant, opts ExecOpts, out *Outcome) {
 		for i := 0; i < 10000; i++ {
 			synctest.Wait()
 			parked := d.Parked()
+			if lr := d.ParkedReads(); len(lr) > 0 {
+				// a goroutine of the evaluation is still reading: let it
+				d.ReleaseRead(lr[0])
+				continue
+			}
 			if len(parked) == 0 {
 				if wake, ok := d.nextWake(); ok {
 					if dt := time.Until(wake); dt > 0 {
@@ -244,6 +262,7 @@ func bubble(p *Plan, world *World, v *Variant, opts ExecOpts, out *Outcome) {
 	defer d.mu.Unlock()
 	select {
 	case <-done:
+		out.evalReturned = true
 		if out.Panic == "" && !out.Hang {
 			if res.err != nil {
 				out.Failed = true
@@ -282,6 +301,24 @@ func schedule(d *Daemon, v *Variant, done chan struct{}, out *Outcome) (hang boo
 		default:
 		}
 		parked := d.Parked()
+		reads := d.ParkedReads()
+		if v.GateReads && len(parked)+len(reads) > 0 {
+			// PRNG-driven choice among everything that is parked: opens in inventory
+			// order first, then reads in stream order.
+			pick := NewRng(v.SchedSeed).SubN("pick", uint64(steps)).Intn(len(parked) + len(reads))
+			if pick < len(parked) {
+				// opens of one selection follow its ContainerList call: that is their batch
+				d.Release(parked[pick], d.listCount()-1)
+				out.GatedOps++
+			} else {
+				d.ReleaseRead(reads[pick-len(parked)])
+				out.GatedOps++
+				if len(parked)+len(reads) > 1 {
+					out.GatedChoices++
+				}
+			}
+			continue
+		}
 		if len(parked) == 0 {
 			wake, ok := d.nextWake()
 			if !ok {
